@@ -49,10 +49,13 @@ AMOUNT_CONSTS = lang.CONSTS + [10000.01, 12345.67, 250000.25, 1234.5, 99.99, 0.0
 amount_mod = st.one_of(
     st.tuples(st.sampled_from(['>', '>=', '<', '<=', '=']), st.sampled_from(AMOUNT_CONSTS)).map(lambda t: {'k': 'amount', 'op': t[0], 'v': t[1]}),
     st.tuples(st.sampled_from(AMOUNT_CONSTS), st.sampled_from(AMOUNT_CONSTS)).map(lambda t: {'k': 'amount', 'op': ':', 'lo': min(t), 'hi': max(t)}),
+    # a range written larger bound first is accepted by the loader and simply never matches
+    st.tuples(st.sampled_from(AMOUNT_CONSTS), st.sampled_from(AMOUNT_CONSTS)).map(lambda t: {'k': 'amount', 'op': ':', 'lo': max(t), 'hi': min(t)}),
 )
 date_mod = st.one_of(
     st.sampled_from(lang.DATES).map(lambda d: {'k': 'date', 'op': '=', 'd': d}),
     st.tuples(st.sampled_from(lang.DATES), st.sampled_from(lang.DATES)).map(lambda t: {'k': 'date', 'op': ':', 'lo': min(t), 'hi': max(t)}),
+    st.tuples(st.sampled_from(lang.DATES), st.sampled_from(lang.DATES)).map(lambda t: {'k': 'date', 'op': ':', 'lo': max(t), 'hi': min(t)}),
     st.integers(1, 12).map(lambda m: {'k': 'month', 'm': m}),
 )
 relative_mod = st.integers(1, 3000).map(lambda n: {'k': 'date', 'op': 'rel', 'n': n})
